@@ -194,5 +194,5 @@ PROPS['C10'] = {
         'on which pool each task was registered; "runs on a worker of that pool" is observed as "runs inside a task that was registered on that pool". Identity/exit callbacks of the worker task are environment.',
         'NOT covered: worker-hint placement under the static policies (queue selection in the *_queue_scheduler classes), std_thread_scheduler, bulk placement, resource-partitioner layouts, OS-level thread identity.',
     ],
-    'queries': [dict(name='placement_two_pools', kernel='C10_placement.cpp', prefix='plc_', mode='seq', inline=20000, unwind=4, covers=[0], timeout=1800)],
+    'queries': [dict(name='placement_two_pools', kernel='C10_placement.cpp', prefix='plc_', mode='seq', inline=20000, unwind=26, covers=[0], timeout=1800)],
 }
